@@ -1,0 +1,61 @@
+#ifndef CHESS_ENGINE_VERIF_HOOKS_H_
+#define CHESS_ENGINE_VERIF_HOOKS_H_
+
+// Observation points for the external verification harnesses in /verif.
+// Everything is compiled out unless CHESSPLUSPLUS_VERIF is defined, and even then
+// the points are inert until a harness installs verif::point_cb.
+
+#ifdef CHESSPLUSPLUS_VERIF
+
+namespace engine
+{
+namespace verif
+{
+enum Point : int
+{
+    SEARCH_STOP,      // Search::stop() entered                (a = nullptr)
+    GO_ENTER,         // Search::go() entered
+    GO_INIT_DONE,     // after init_search()
+    GO_RESET_DONE,    // after the stop flag was reset
+    GO_BESTMOVE,      // just before "bestmove" is printed
+    ITER_START,       // top of the iterative-deepening loop
+    NODE,             // first statement of search()            (a = Info*, b = Position*)
+    QNODE,            // first statement of quiescence_search() (a = Info*, b = Position*)
+    UCI_LINE,         // Uci::loop read a line                  (a = const char*)
+    UCI_GO_SPAWNED,   // search thread detached
+    THREAD_START,     // start_searching() entered
+    THREAD_END        // start_searching() about to return
+};
+
+using PointCallback = void (*)(int point, void* search, const void* a, const void* b);
+inline PointCallback point_cb = nullptr;
+
+struct ScopeExit
+{
+    int point;
+    ~ScopeExit()
+    {
+        if (point_cb) point_cb(point, nullptr, nullptr, nullptr);
+    }
+};
+
+}  // namespace verif
+}  // namespace engine
+
+#define VERIF_POINT(id, search, a, b)                                             \
+    do                                                                            \
+    {                                                                             \
+        if (::engine::verif::point_cb)                                            \
+            ::engine::verif::point_cb(::engine::verif::id, (void*)(search),       \
+                                      (const void*)(a), (const void*)(b));        \
+    } while (false)
+#define VERIF_SCOPE_EXIT(id) ::engine::verif::ScopeExit verif_scope_exit_{::engine::verif::id}
+
+#else
+
+#define VERIF_POINT(id, search, a, b) ((void)0)
+#define VERIF_SCOPE_EXIT(id) ((void)0)
+
+#endif
+
+#endif  // CHESS_ENGINE_VERIF_HOOKS_H_
